@@ -5,7 +5,6 @@ import (
 	"encoding/binary"
 	"encoding/hex"
 	"fmt"
-	"os"
 	"runtime/debug"
 	"sort"
 	"strings"
@@ -64,10 +63,6 @@ var mainPool = []string{
 var kidNamePool = []string{"a", "c1", "ab", "\x10"}
 var kidKeyPool = []string{"a", "ab", "abc", "b", "", "\x10", "\x10\x01", "\x1f", "\x11", childRootPfx + "a"}
 var valLens = []int{1, 0, 31, 32, 33, 64, 2, 32, 33}
-
-// genEmptyPrefixInTx enables clear-prefix calls with an empty prefix inside a
-// transaction; on the unchanged tree they spin forever (see opClear).
-var genEmptyPrefixInTx = os.Getenv("VERIF_TXN_EMPTY_PREFIX_IN_TX") == "1"
 
 type line struct{ tag, key, val string }
 
@@ -721,15 +716,6 @@ func (e *env) opClear(n ns, kill bool) {
 	} else if e.k.Bool(1, 3, "none-via-limit-api") {
 		viaLimitAPI = true // Option::None as the host functions pass it
 	}
-	if !genEmptyPrefixInTx && !kill && prefix == "" && e.m.depth() > 0 && len(e.m.backend(n, false)) > 0 {
-		// KNOWN DEFECT (hang): TrieState.ClearPrefix/ClearPrefixLimit/ClearPrefixInChild(WithLimit) with an
-		// empty prefix inside a transaction never return (`for key := iter.NextKey(); bytes.HasPrefix(key, prefix)`
-		// with key == nil at the end of the iteration). A hang cannot be reported as a violation without
-		// leaking a spinning goroutine per execution, so the call is skipped unless VERIF_TXN_EMPTY_PREFIX_IN_TX=1.
-		e.k.Event("skipped", "clear-prefix %s with empty prefix inside a transaction (known hang)", n)
-		e.k.Probe("skipped-empty-prefix-in-tx-known-hang")
-		return
-	}
 	plan := e.m.planClear(n, prefix, limited, limit)
 	name := "clear-prefix"
 	if kill {
@@ -750,6 +736,18 @@ func (e *env) opClear(n ns, kill bool) {
 	e.each(func(s *sut) {
 		r := &clearRes{}
 		res[s] = r
+		if s.primary {
+			// the reference backend's iterator panics with endlessLoop when it is polled 10000 times
+			// after the end of the iteration: a loop in TrieState that cannot terminate
+			defer func() {
+				if x := recover(); x != nil {
+					if _, ok := x.(endlessLoop); !ok {
+						panic(x)
+					}
+					e.fail(s, "hang", name+" never returns [tx]", "%s %s prefix %s limit %s does not terminate: the key iterator was polled %d times after it had reported the end of the iteration", name, n, hx(prefix), lim, maxPollsAfterEnd)
+				}
+			}()
+		}
 		switch {
 		case kill:
 			var lp *[]byte
@@ -831,8 +829,15 @@ func (e *env) opClear(n ns, kill bool) {
 	e.each(func(s *sut) {
 		r := res[s]
 		if r != nil && r.haveResult && !plan.direct {
-			if plan.allKnown && r.all != plan.all {
-				e.fail(s, "clear-result-all", e.class(name+" all-removed flag"), "%s %s prefix %s limit %s returned allDeleted=%v; Substrate reports %v (backend keys under prefix %s, overlay keys under prefix %s)", name, n, hx(prefix), lim, r.all, plan.all, renderList(plan.bp), renderList(plan.ov))
+			// The flag: "some remaining" is required when a backend-only key under the prefix survived
+			// the limit; "all removed" is required when nothing survived and both generations of
+			// Substrate say so. (Both generations say "some remaining" for a few degenerate calls after
+			// which nothing is left, e.g. limit 0 over keys that are already deleted - not asserted.)
+			if len(r.gone) < len(plan.pb) && r.all {
+				e.fail(s, "clear-result-all", e.class(name+" all-removed flag"), "%s %s prefix %s limit %s returned allDeleted=true although backend keys under the prefix survive the limit (backend keys under prefix %s, removed %s)", name, n, hx(prefix), lim, renderList(plan.bp), renderList(r.gone))
+			}
+			if len(r.gone) == len(plan.pb) && plan.allKnown && plan.all && !r.all {
+				e.fail(s, "clear-result-all", e.class(name+" all-removed flag"), "%s %s prefix %s limit %s returned allDeleted=false although no key under the prefix remains and the limit was not reached; Substrate reports all removed (backend keys under prefix %s, overlay keys under prefix %s)", name, n, hx(prefix), lim, renderList(plan.bp), renderList(plan.ov))
 			}
 			// The number: Substrate reports backend keys only (removed, later: visited); gossamer's
 			// unit tests pin "overlay keys deleted + backend keys". Neither reading is excluded:
